@@ -185,7 +185,11 @@ def check(res, tier, seed):
             res.violation("bcast-stress", "implementation violates C19 under the real scheduler: " + sr["violates"], dict(kind="bcast-stress", result=sr))
     if src != 0:
         monitor_hits += 1
-        res.violation("bcast-stress-died", "the Broadcaster stress run died: %s" % (sout.strip().splitlines() or ["?"])[-1][:300], dict(output=sout[-3000:]))
+        hang = next((l for l in sout.splitlines() if l.startswith("STRESSHANG")), None)
+        if hang:
+            res.violation("bcast-stress-hang", "implementation violates C19 under the real scheduler: " + hang[len("STRESSHANG "):], dict(kind="bcast-stress", output=sout[-3000:]))
+        else:
+            res.violation("bcast-stress-died", "the Broadcaster stress run died: %s" % (sout.strip().splitlines() or ["?"])[-1][:300], dict(output=sout[-3000:]))
     # correspondence with the model (kernel evaluation)
     mism, ncoq = eval_cases(wd, "cases", recs)
     for ci, step in mism:
